@@ -422,3 +422,200 @@ theorem mergeRec_perm (merge : α → α → Option α) (D : α → List β) (P 
     · exact pass_perm merge D P hm hD items hp
 
 end Svgbob.G
+
+namespace Svgbob.G
+variable {α : Type}
+
+/-! ### locality under an invariant
+
+Items satisfying `P` (preserved by `merge`) fall into classes `cls`; items of different classes
+never merge and a merge stays in the class of its group. Then a pass restricted to one class is
+the pass of the restriction: what happens to one class does not depend on the others. -/
+
+theorem mergeIntoRev_filter_inv (merge : α → α → Option α) (cls : α → Nat) (P : α → Prop)
+    (hx : ∀ a b, P a → P b → cls a ≠ cls b → merge a b = none)
+    (hc : ∀ a b m, P a → P b → merge a b = some m → cls m = cls a)
+    (k : Nat) (gs : List α) (it : α) (hg : ∀ g ∈ gs, P g) (hi : P it) :
+    (cls it = k →
+      mergeIntoRev merge (gs.filter (cls · = k)) it =
+        (mergeIntoRev merge gs it).map (List.filter (cls · = k))) ∧
+    (cls it ≠ k → ∀ r, mergeIntoRev merge gs it = some r →
+      r.filter (cls · = k) = gs.filter (cls · = k)) := by
+  induction gs with
+  | nil => simp [mergeIntoRev]
+  | cons g gs ih =>
+    have hg' : ∀ x ∈ gs, P x := fun x hx' => hg x (List.mem_cons_of_mem _ hx')
+    have hPg : P g := hg g (by simp)
+    obtain ⟨ih1, ih2⟩ := ih hg'
+    constructor
+    · intro hk
+      by_cases hgk : cls g = k
+      · simp only [List.filter_cons, hgk, decide_true, if_true, mergeIntoRev, ih1 hk]
+        cases h : mergeIntoRev merge gs it with
+        | some r => simp [hgk]
+        | none =>
+          simp only [Option.map_none]
+          cases hm : merge g it with
+          | none => simp
+          | some m => simp [hc g it m hPg hi hm, hgk]
+      · have hne : cls g ≠ cls it := by omega
+        have hgf : (List.filter (fun x => decide (cls x = k)) (g :: gs)) =
+            List.filter (fun x => decide (cls x = k)) gs := by
+          simp [List.filter_cons, hgk]
+        rw [hgf, ih1 hk]
+        simp only [mergeIntoRev, hx g it hPg hi hne]
+        cases h : mergeIntoRev merge gs it with
+        | some r => simp [List.filter_cons, hgk]
+        | none => simp
+    · intro hk r hr
+      simp only [mergeIntoRev] at hr
+      split at hr
+      · rename_i gs' hgs'
+        cases hr
+        simp [List.filter_cons, ih2 hk _ hgs']
+      · split at hr
+        · rename_i m hm
+          cases hr
+          have h1 : cls m = cls g := hc g it m hPg hi hm
+          have h2 : cls g = cls it := by
+            by_cases hne : cls g = cls it
+            · exact hne
+            · rw [hx g it hPg hi hne] at hm; cases hm
+          have hgk : cls g ≠ k := by omega
+          have hm' : cls m ≠ k := by omega
+          simp [List.filter_cons, hgk, hm']
+        · cases hr
+
+theorem step_filter_inv (merge : α → α → Option α) (cls : α → Nat) (P : α → Prop)
+    (hx : ∀ a b, P a → P b → cls a ≠ cls b → merge a b = none)
+    (hc : ∀ a b m, P a → P b → merge a b = some m → cls m = cls a)
+    (k : Nat) (acc : List α) (it : α) (ha : ∀ g ∈ acc, P g) (hi : P it) :
+    (step merge acc it).filter (cls · = k) =
+      if cls it = k then step merge (acc.filter (cls · = k)) it else acc.filter (cls · = k) := by
+  obtain ⟨h1, h2⟩ := mergeIntoRev_filter_inv merge cls P hx hc k acc it ha hi
+  by_cases hk : cls it = k
+  · simp only [hk, if_true]
+    unfold step
+    rw [h1 hk]
+    cases h : mergeIntoRev merge acc it with
+    | some r => simp
+    | none => simp [List.filter_append, hk]
+  · simp only [hk, if_false]
+    unfold step
+    cases h : mergeIntoRev merge acc it with
+    | some r => simpa using h2 hk r h
+    | none => simp [List.filter_append, hk]
+
+/-- **Locality of a pass.** -/
+theorem pass_filter_inv (merge : α → α → Option α) (cls : α → Nat) (P : α → Prop)
+    (hm : ∀ g it m, merge g it = some m → P g → P it → P m)
+    (hx : ∀ a b, P a → P b → cls a ≠ cls b → merge a b = none)
+    (hc : ∀ a b m, P a → P b → merge a b = some m → cls m = cls a)
+    (k : Nat) (items : List α) (hp : ∀ x ∈ items, P x) :
+    (pass merge items).filter (cls · = k) = pass merge (items.filter (cls · = k)) := by
+  unfold pass
+  suffices h : ∀ acc, (∀ g ∈ acc, P g) → (items.foldl (step merge) acc).filter (cls · = k) =
+      (items.filter (cls · = k)).foldl (step merge) (acc.filter (cls · = k)) by
+    simpa using h [] (by simp)
+  induction items with
+  | nil => intro acc _; simp
+  | cons x xs ih =>
+    intro acc ha
+    have hx' := hp x (by simp)
+    simp only [List.foldl_cons]
+    rw [ih (fun y hy => hp y (List.mem_cons_of_mem _ hy)) _ (step_forall merge P hm acc x ha hx'),
+      step_filter_inv merge cls P hx hc k acc x ha hx']
+    by_cases hk : cls x = k
+    · simp [List.filter_cons, hk]
+    · simp [List.filter_cons, hk]
+
+end Svgbob.G
+
+namespace Svgbob.G
+variable {α : Type}
+
+/-! ### `merge_recursive` as an iterated pass; locality of the whole loop -/
+
+def iter (f : List α → List α) : Nat → List α → List α
+  | 0, l => l
+  | j + 1, l => iter f j (f l)
+
+theorem iter_fixpoint (f : List α → List α) (l : List α) (h : f l = l) (j : Nat) : iter f j l = l := by
+  induction j with
+  | zero => rfl
+  | succ j ih => simp [iter, h, ih]
+
+theorem iter_add (f : List α → List α) (i j : Nat) (l : List α) :
+    iter f (i + j) l = iter f j (iter f i l) := by
+  induction i generalizing l with
+  | zero => simp [iter]
+  | succ i ih =>
+    have : i + 1 + j = (i + j) + 1 := by omega
+    rw [this]; simp [iter, ih]
+
+/-- two iterates from the same start that are both fixpoints coincide -/
+theorem iter_fixpoint_unique (f : List α → List α) (l : List α) (i j : Nat)
+    (hi : f (iter f i l) = iter f i l) (hj : f (iter f j l) = iter f j l) :
+    iter f i l = iter f j l := by
+  rcases Nat.le_total i j with h | h
+  · obtain ⟨d, rfl⟩ := Nat.exists_eq_add_of_le h
+    rw [iter_add, iter_fixpoint f _ hi]
+  · obtain ⟨d, rfl⟩ := Nat.exists_eq_add_of_le h
+    rw [iter_add, iter_fixpoint f _ hj]
+
+theorem mergeRec_eq_iter (merge : α → α → Option α) (n : Nat) (l : List α) :
+    ∃ j, mergeRec merge n l = iter (pass merge) j l := by
+  induction n generalizing l with
+  | zero => exact ⟨0, rfl⟩
+  | succ n ih =>
+    simp only [mergeRec]
+    split
+    · obtain ⟨j, hj⟩ := ih (pass merge l)
+      exact ⟨j + 1, by simpa [iter] using hj⟩
+    · exact ⟨1, by simp [iter]⟩
+
+theorem iter_pass_forall (merge : α → α → Option α) (P : α → Prop)
+    (hm : ∀ g it m, merge g it = some m → P g → P it → P m)
+    (j : Nat) (l : List α) (h : ∀ x ∈ l, P x) : ∀ x ∈ iter (pass merge) j l, P x := by
+  induction j generalizing l with
+  | zero => simpa [iter] using h
+  | succ j ih => simp only [iter]; exact ih _ (pass_forall merge P hm l h)
+
+theorem iter_pass_filter_inv (merge : α → α → Option α) (cls : α → Nat) (P : α → Prop)
+    (hm : ∀ g it m, merge g it = some m → P g → P it → P m)
+    (hx : ∀ a b, P a → P b → cls a ≠ cls b → merge a b = none)
+    (hc : ∀ a b m, P a → P b → merge a b = some m → cls m = cls a)
+    (k : Nat) (j : Nat) (l : List α) (hp : ∀ x ∈ l, P x) :
+    (iter (pass merge) j l).filter (cls · = k) = iter (pass merge) j (l.filter (cls · = k)) := by
+  induction j generalizing l with
+  | zero => simp [iter]
+  | succ j ih =>
+    simp only [iter]
+    rw [ih _ (pass_forall merge P hm l hp), pass_filter_inv merge cls P hm hx hc k l hp]
+
+/-- **Locality of `merge_recursive`**: restricted to one class, the result of the loop on the
+whole list is the result of the loop on that class alone (with adequate fuel on both sides). -/
+theorem mergeRec_filter_inv (merge : α → α → Option α) (cls : α → Nat) (P : α → Prop)
+    (hm : ∀ g it m, merge g it = some m → P g → P it → P m)
+    (hx : ∀ a b, P a → P b → cls a ≠ cls b → merge a b = none)
+    (hc : ∀ a b m, P a → P b → merge a b = some m → cls m = cls a)
+    (k : Nat) (n n' : Nat) (l : List α) (hp : ∀ x ∈ l, P x)
+    (hn : l.length < n) (hn' : (l.filter (cls · = k)).length < n') :
+    (mergeRec merge n l).filter (cls · = k) = mergeRec merge n' (l.filter (cls · = k)) := by
+  obtain ⟨j, hj⟩ := mergeRec_eq_iter merge n l
+  obtain ⟨j', hj'⟩ := mergeRec_eq_iter merge n' (l.filter (cls · = k))
+  have hfix := (mergeRec_fuel_adequate merge n l hn).2
+  have hfix' := (mergeRec_fuel_adequate merge n' _ hn').2
+  rw [hj] at hfix ⊢
+  rw [hj'] at hfix' ⊢
+  rw [iter_pass_filter_inv merge cls P hm hx hc k j l hp]
+  apply iter_fixpoint_unique (pass merge)
+  · -- the filtered iterate is a fixpoint of `pass`
+    have hP := iter_pass_forall merge P hm j l hp
+    have := pass_filter_inv merge cls P hm hx hc k _ hP
+    rw [hfix] at this
+    rw [← iter_pass_filter_inv merge cls P hm hx hc k j l hp]
+    exact this.symm
+  · exact hfix'
+
+end Svgbob.G
